@@ -230,7 +230,14 @@ func runSchedule(r *rng.R, sync bool, maxOps int, viaReconciler bool, bigFirst i
 		}
 	}
 	if !waitEntered() {
+		// The handler was not called with the start-up batch. Offer one event: if the handler's FIRST invocation then
+		// carries that event, the start-up batch was skipped (reported through the judge, clause first_batch_first).
 		res.inconclusive = "first batch never started"
+		if send(next) && waitEntered() {
+			res.inconclusive = ""
+			res.judge = fmt.Sprintf("first=%s sent=%d batches=%s exits=%s maxconc=%d early=0 drained=0",
+				natList(firstInts), next, natLists(h.snapshot()), natLists(h.snapshotExits()), h.maxconc)
+		}
 		return res
 	}
 	inflight := true // a handler is blocked in HandleEventBatch
@@ -248,6 +255,18 @@ func runSchedule(r *rng.R, sync bool, maxOps int, viaReconciler bool, bigFirst i
 			next++
 			if !send(e) {
 				res.inconclusive = "send blocked"
+				if sync && !inflight && !viaReconciler {
+					// the handler is idle (acknowledged, goroutine gone) and the loop does not take the event
+					select {
+					case ch <- e:
+						res.inconclusive = "send slow"
+					case <-time.After(idleGrace):
+						res.inconclusive = ""
+						sent = append(sent, e)
+						res.judge = fmt.Sprintf("first=%s sent=%s batches=%s exits=%s maxconc=%d early=0 drained=0 stuck=1",
+							natList(firstInts), natList(sent), natLists(h.snapshot()), natLists(h.snapshotExits()), h.maxconc)
+					}
+				}
 				return res
 			}
 			sent = append(sent, e)
@@ -429,6 +448,7 @@ func Run(args []string) int {
 	maxStall := fs.Int("maxstall", 300, "delivery: maximal stall (ms) of the ordinary cases")
 	prepare := fs.Bool("prepare", false, "prepare stream: real FirstEventBatchPreparerImpl over a fake reader (see delivery.go)")
 	maxLists := fs.Int("maxlists", 2, "prepare: number of lists enumerated exhaustively")
+	idleFam := fs.Bool("idlefamily", false, "idle family: start-up batch / in-flight burst of 1024..1100 events, then events offered only while idle (see idle.go)")
 	_ = fs.Parse(args)
 	if *delivery {
 		var ls []int
@@ -447,7 +467,12 @@ func Run(args []string) int {
 	defer w.Flush()
 	anomalies := 0
 	for i := 0; i < *n && anomalies < 12; i++ {
-		res := runSchedule(r.Fork(), !*racy, *maxOps, *viaRec, *big)
+		var res result
+		if *idleFam {
+			res = runIdleFamily(r.Fork(), i%2 == 1)
+		} else {
+			res = runSchedule(r.Fork(), !*racy, *maxOps, *viaRec, *big)
+		}
 		if res.inconclusive != "" && res.judge == "" {
 			anomalies++
 			fmt.Fprintf(w, "X %s\n", res.inconclusive)
